@@ -682,6 +682,132 @@ impl Engine {
             .push(json!({"name": name, "kind": "external", "cases": evaluations}));
     }
 
+    /// Replay the committed seed corpus of a fuzz target through the same target function,
+    /// without libFuzzer (both tiers).
+    pub fn fuzz_corpus(&self, target: &str) {
+        if self.replay.is_some() || self.failed() {
+            return;
+        }
+        let dir = self.root.join("harness/fuzz/corpus").join(target);
+        let mut files: Vec<PathBuf> = std::fs::read_dir(&dir)
+            .map(|rd| rd.flatten().map(|e| e.path()).collect())
+            .unwrap_or_default();
+        files.sort();
+        let mut n = 0u64;
+        let mut fps = vec![];
+        for f in &files {
+            let Ok(data) = std::fs::read(f) else { continue };
+            n += 1;
+            let r = catch_unwind(AssertUnwindSafe(|| crate::fuzz_targets::run(target, &data)));
+            let r = match r {
+                Ok(r) => r,
+                Err(p) => Err(Failure::new(
+                    format!("panic: {}", first_line(&exec::panic_message(&p))),
+                    format!("panic in fuzz target {target}: {}", exec::panic_message(&p)),
+                )),
+            };
+            match r {
+                Ok(()) => fps.push(hash_of(&data)),
+                Err(fl) if fl.signature == "infra" || fl.signature == "harness-bug" => {}
+                Err(fl) => {
+                    self.record_violation(
+                        &format!("fuzz-corpus-{target}"),
+                        fl,
+                        &json!({"fuzz_target": target, "input_file": f.display().to_string()}),
+                    );
+                    return;
+                }
+            }
+        }
+        if n > 0 {
+            self.record_external(
+                &format!("fuzz-corpus-{target}"),
+                &format!("replay of the {n} committed seed inputs of cargo-fuzz target {target} through the same target function (bytes -> proptest pass-through RNG -> the property's strategy -> the property's check)"),
+                n,
+                fps,
+                vec![],
+                vec![json!({"target": target, "inputs": n})],
+            );
+        }
+    }
+
+    /// A bounded libFuzzer campaign (thorough tier).  Infrastructure problems (no nightly, build
+    /// failure) are recorded as notes, never as violations.
+    pub fn fuzz_campaign(&self, target: &str, runs: u64) {
+        if self.replay.is_some() || self.failed() || self.tier != Tier::Thorough {
+            return;
+        }
+        let fuzz_dir = self.root.join("harness/fuzz");
+        let work = fuzz_dir.join("work").join(target);
+        let _ = std::fs::remove_dir_all(&work);
+        let _ = std::fs::create_dir_all(&work);
+        let artifacts = fuzz_dir.join("artifacts").join(target);
+        let _ = std::fs::remove_dir_all(&artifacts);
+        let seed = (self.seed % 0xffff_fffe) + 1;
+        let t0 = Instant::now();
+        let out = std::process::Command::new("cargo")
+            .current_dir(&fuzz_dir)
+            .env("RUSTFLAGS", "--cfg gothenburgbitfactory_taskchampion_verif")
+            .env("CARGO_NET_OFFLINE", "true")
+            .args(["+nightly", "fuzz", "run", target])
+            .arg(&work)
+            .arg(fuzz_dir.join("corpus").join(target))
+            .arg("--")
+            .args([
+                format!("-runs={runs}"),
+                format!("-seed={seed}"),
+                "-len_control=0".to_string(),
+                "-max_len=4096".to_string(),
+                "-print_final_stats=1".to_string(),
+                "-timeout=120".to_string(),
+            ])
+            .output();
+        let Ok(out) = out else {
+            self.note(format!("fuzz campaign {target}: cargo fuzz could not be started"));
+            return;
+        };
+        let text = format!("{}{}", String::from_utf8_lossy(&out.stdout), String::from_utf8_lossy(&out.stderr));
+        let executed: u64 = text
+            .lines()
+            .find_map(|l| l.strip_prefix("stat::number_of_executed_units:"))
+            .and_then(|v| v.trim().parse().ok())
+            .unwrap_or(0);
+        let crash = std::fs::read_dir(&artifacts)
+            .ok()
+            .and_then(|rd| rd.flatten().map(|e| e.path()).find(|p| p.file_name().map(|n| n.to_string_lossy().starts_with("crash-")).unwrap_or(false)));
+        if let Some(artifact) = crash {
+            let msg = text
+                .lines()
+                .find(|l| l.contains("VIOLATION property="))
+                .unwrap_or("the fuzz target crashed")
+                .to_string();
+            let dir = self.root.join("failures");
+            let _ = std::fs::create_dir_all(&dir);
+            let dest = dir.join(format!("{}-fuzz-{}-{}", self.prop, target, artifact.file_name().unwrap().to_string_lossy()));
+            let _ = std::fs::copy(&artifact, &dest);
+            let mut st = self.state.lock().unwrap();
+            st.samples.push(json!({"campaign": format!("fuzz-{target}"), "violating_input": dest.display().to_string(), "message": msg}));
+            st.violations.push((format!("fuzz:{target}"), dest, msg));
+            return;
+        }
+        if executed == 0 {
+            self.note(format!(
+                "fuzz campaign {target}: no executions recorded (build or infrastructure problem); last output: {}",
+                text.lines().rev().take(3).collect::<Vec<_>>().join(" | ")
+            ));
+            return;
+        }
+        let corpus_n = std::fs::read_dir(&work).map(|rd| rd.count()).unwrap_or(0);
+        self.record_external(
+            &format!("fuzz-{target}"),
+            &format!("libFuzzer campaign on cargo-fuzz target {target}: -runs={runs} -seed={seed} -len_control=0 from the committed seed corpus; the semantic oracle is inside the target; non-trivial = inputs that reached new coverage (kept in the work corpus)"),
+            executed,
+            (0..corpus_n as u64).map(|i| hash_of(&(target, i))).collect(),
+            vec![],
+            vec![json!({"target": target, "executed": executed, "work_corpus": corpus_n, "wall_s": t0.elapsed().as_secs_f64()})],
+        );
+    }
+
     pub fn record_violation(&self, name: &str, f: Failure, case: &Value) {
         if self.is_open_known(&f.signature) {
             let mut st = self.state.lock().unwrap();
